@@ -274,12 +274,20 @@ def run(rep: Report, only=None) -> None:
     # through the caches and the real invalidating wrappers, equals its recomputation.
     from .. import histories as H
 
-    length = 3 if rep.tier == "thorough" else 2
+    import itertools as _it
+
+    from . import common as _common
+
+    length = 4 if rep.tier == "thorough" else 2
     nh = 0
     seen_bad = set()
-    for labels, bad in H.explore(prog, length):
+    seqs = list(_it.product(range(H.n_operations(prog)), repeat=length))
+    for labels, bad in _common.pmap(_history_one, seqs, shared={"prog": prog}):
         nh += 1
         if bad is None:
+            continue
+        if bad[0] == "analysis":
+            rep.undecided("H-history", " ; ".join(labels), rel, bad[1])
             continue
         key = (bad[0], labels[-1])
         if key in seen_bad:
@@ -433,6 +441,16 @@ def _check_decorator(rep: Report, prog) -> None:
                 rep.check(ok, "R5-decorator", label, where, why,
                           key=f"R5|k={k}|present={','.join(present) or '-'}|raising={raising}")
     rep.floor("decorator scenarios", n, 14)
+
+
+def _history_one(seq):
+    from .. import histories as H
+    from . import common as _common
+
+    try:
+        return H.explore_one(_common.SHARED["prog"], seq)
+    except AnalysisError as e:
+        return ([f"history {seq}"], ("analysis", f"ANALYSIS-ERROR {e}"))
 
 
 # ------------------------------------------------------------------ SIG
